@@ -23,7 +23,7 @@ CHECKS = {
  "C04": ("envx",
   "stateless model checking of the real stack against a scripted raw peer: DFS over all histories of peer window advertisements / ACK placements / ICMP fragmentation-needed within the deviation budget; every emitted segment checked against the window, MSS and MTU offered so far",
   "Peer MSS {absent,1,88,536,1460} x window scale {absent,0,2,14} x MTU {576,1500} (quick: 3 combinations), writes {1, MSS, MSS+1, 5 MSS, 70000}: at each delivered data segment the peer may answer with a window from {0,1,MSS-1,MSS,3MSS,65535} (edge never retreating), acknowledge mid-segment, withhold the ACK, lose the segment, or an ICMP fragmentation-needed (MTU 296/68/576) arrives; budget 1 (thorough 2 on two configurations). Every emitted segment: end <= right edge offered so far, payload <= min(MSS, MTU-headers-options) and <= reported path MTU afterwards; the stack's own advertised edge never moves left; receive side with a small buffer and an application that reads only once the window has closed: unread accepted bytes <= buffer, window reopens after draining, data wholly outside the advertised window (probe at the edge and beyond a closed window) is never accepted; shrinking the receive buffer mid-stream.",
-  "The peer is conforming except for the deliberate beyond-window probes; advertisements reach the stack in order (no SND.WL1/WL2 test in the stack).",
+  "The peer is conforming except for the deliberate beyond-window probes; a stale copy of an earlier ACK arriving after newer ones is one of the deviations (finding D23, fixed).",
   "DESIGN.md §5 C04"),
  "C05": ("envx",
   "stateless model checking of the real TCP sender against a scripted raw peer under a virtual clock: DFS over all histories of lost segments and withheld / partial / duplicate ACKs within the deviation budget; every emission time-stamped in virtual time",
